@@ -504,7 +504,11 @@ func (x *Exec) lockOp(f *frame, in ssa.Instruction, c *ssa.CallCommon, args []Va
 			x.assume(st, x.evalMonInv(inv, named, ov, st))
 		}
 		x.assumed[fmt.Sprintf("monitor %s.%s: protected fields are accessed only with the lock held (lock discipline; checked by the race detector in the repo's CI, not here)", named.Obj().Name(), mon.Mu)] = true
+		st.holdMon(heldMon{mon: mon, owner: ov.T, ownerT: ownerT})
 		return
+	}
+	if _, isDefer := in.(*ssa.Defer); !isDefer {
+		st.releaseMon(mon, ov.T)
 	}
 	for k, inv := range mon.Invs {
 		t := x.evalMonInv(inv, named, ov, st)
